@@ -492,13 +492,13 @@ func (v *FnV) concat(st *State, a, b string) string {
 	if b == "emptystr" {
 		return a
 	}
-	n := v.c.freshName("cat")
-	st.declare(n, sortStr)
-	st.assume(sAnd(sEq(sx("soff", n), "0"), sEq(sx("slen", n), sx("+", sx("slen", a), sx("slen", b)))))
-	st.assume(fmt.Sprintf("(forall ((k!c Int)) (! (=> (and (<= 0 k!c) (< k!c (slen %s))) (= (sat %s k!c) (sat %s k!c))) :pattern ((sat %s k!c))))", a, n, a, n))
-	st.assume(fmt.Sprintf("(forall ((k!c Int)) (! (=> (and (<= 0 k!c) (< k!c (slen %s))) (= (sat %s (+ (slen %s) k!c)) (sat %s k!c))) :pattern ((sat %s k!c))))", b, n, a, b, b))
-	st.assume(fmt.Sprintf("(forall ((k!c Int)) (! (=> (and (<= (slen %s) k!c) (< k!c (slen %s))) (= (sat %s k!c) (sat %s (- k!c (slen %s))))) :pattern ((sat %s k!c))))", a, n, n, b, a, n))
-	return n
+	cb := v.c.freshName("catb")
+	st.declare(cb, "(Array Int Int)")
+	la := st.define("la", "Int", sx("slen", a))
+	lb := st.define("lb", "Int", sx("slen", b))
+	st.assume(fmt.Sprintf("(forall ((k!c Int)) (! (=> (and (<= 0 k!c) (< k!c %s)) (= (select %s k!c) (sat %s k!c))) :pattern ((select %s k!c))))", la, cb, a, cb))
+	st.assume(fmt.Sprintf("(forall ((k!c Int)) (! (=> (and (<= %s k!c) (< k!c (+ %s %s))) (= (select %s k!c) (sat %s (- k!c %s)))) :pattern ((select %s k!c))))", la, la, lb, cb, b, la, cb))
+	return fmt.Sprintf("(mkstr %s 0 (+ %s %s))", cb, la, lb)
 }
 
 // eq implements Go ==.
